@@ -17,7 +17,8 @@ from snaxc.inference.trace_acc_state import infer_state_of
 ID = "C07"
 RULE = (
     "Recipes are untraced accfg programs (same grammar as C01: full-field units, nested scf.for/scf.if, calls with and without the "
-    "no-effects annotation at any depth incl. as the only content of a loop or branch, 1-2 accelerators) plus 3 input vectors. The real "
+    "no-effects annotation at any depth incl. as the only content of a loop or branch, 1-2 accelerators; optionally partially pre-threaded: some setups already "
+    "carry the state of the directly preceding setup of the same block) plus 3 input vectors. The real "
     "pass accfg-trace-states is applied and the traced program is executed on the CSR machine. Whenever execution defines a value of "
     "type !accfg.state (setup result, loop block argument on every iteration, scf.for result, scf.if result) the real infer_state_of(value) (on the traced program, and in 2/3 of the cases on the program after accfg-dedup, whose partial and hoisted setups are what the analysis is used on) "
     "is called and every entry field -> SSA value v with a run-time binding must satisfy registers[acc][field] == env[v]. Structural part: "
@@ -31,9 +32,48 @@ ASSUMPTIONS = [
 ]
 
 
+def _prethread(mod, bits):
+    """Pre-existing, partially threaded state: link some setups to the setup of the same accelerator that directly precedes them in the
+    same block with only side-effect-free ops in between (a correct threading by construction). `bits` selects which ones."""
+    from xdsl.rewriter import Rewriter
+    from xdsl.traits import is_side_effect_free
+
+    from snaxc.dialects import accfg
+
+    if not bits:
+        return 0
+    n = 0
+    k = 0
+    rw = Rewriter()
+    for op in list(mod.walk()):
+        if not isinstance(op, accfg.SetupOp) or op.in_state is not None or op.parent_op() is None:
+            continue
+        prev = op.prev_op
+        ok = None
+        while prev is not None:
+            if isinstance(prev, accfg.SetupOp) and prev.accelerator == op.accelerator:
+                ok = prev
+                break
+            if prev.regions or not (is_side_effect_free(prev) or prev.name in ("accfg.launch", "accfg.await", "accfg.setup")):
+                break
+            prev = prev.prev_op
+        if ok is None:
+            continue
+        take = bits[k % len(bits)]
+        k += 1
+        if not take:
+            continue
+        new = accfg.SetupOp(op.values, op.param_names, op.accelerator, ok.out_state)
+        rw.replace_op(op, new)
+        n += 1
+    return n
+
+
 def prop(r):
     built = G.build(r)
     mod = parse(built.text, shared_ctx())
+    mod.verify()
+    n_pre = _prethread(mod, r.get("prethread", []))
     mod.verify()
     try:
         with time_limit(10):
@@ -113,6 +153,8 @@ def prop(r):
     if n_exec == 0:
         raise Outside("all executions exceeded the step budget")
     cls = sorted(built.features) + sorted(trips_seen) + [k for k, v in seen.items() if v] + ["post:" + r.get("post", "trace")]
+    if n_pre:
+        cls.append("prethreaded")
     nontrivial = bool(seen["loop_head_iter2"] or seen["after_for"] or seen["after_if"])
     return Info(nontrivial=nontrivial, classes=tuple(cls), evals=n_exec, sample=dict(after=to_text(mod)))
 
@@ -122,6 +164,7 @@ def strat(draw, tier):
     r = draw(G.program(tier))
     r["post"] = draw(st.sampled_from(["trace", "dedup", "dedup"]))
     r["hoist"] = draw(st.booleans())
+    r["prethread"] = draw(st.lists(st.booleans(), min_size=0, max_size=4))
     return r
 
 
